@@ -25,7 +25,12 @@ Inductive case :=
 (* two real relayers over one network: [a] coordinates (ready stream [ready1]), [c] is another key
    holder; [msgs2] are offered to [c] after it was left out *)
 | Duo (keys : list N) (tm : timing) (m : nat) (holders : list peer) (t : Z) (a c : peer)
-      (ready1 : list peer) (msgs2 : list (N * wmsg)) (impl_a impl_c : obs).
+      (ready1 : list peer) (msgs2 : list (N * wmsg)) (impl_a impl_c : obs)
+(* a case the RUNNER could not drive (the scripted election messages could not be handed over within the
+   election window even at its longest, one of its waits ran into a shortened deadline - recorded as
+   harness_error): what was recorded says nothing about the code under test.  Never judged (the judge
+   abstains), always a broken correspondence ([agree] fails). *)
+| Undriven (c : case).
 
 Definition run_eqb (a b : bool * list peer) : bool := Bool.eqb (fst a) (fst b) && list_peer_eqb (snd a) (snd b).
 Fixpoint runs_eqb (a b : list (bool * list peer)) : bool :=
@@ -63,6 +68,7 @@ Definition model_with (br : (peer -> N) -> peer -> list bmsg -> list peer -> pee
       session_silent (key_of keys) tm m (br (key_of keys)) classify holders t self (retryable_of pk) msgs1 bs ready2 msgs2
   | Duo keys tm m holders t a c ready1 msgs2 _ _ =>
       duo_c (key_of keys) tm m (br (key_of keys)) classify holders t a c ready1 msgs2
+  | Undriven _ => mkObs [] None [] [] 0 [] []
   end.
 
 (* the election rule as coded (a peer outside the candidate list ranks level with the first candidate) *)
@@ -83,6 +89,7 @@ Definition agree (c : case) : bool :=
       && list_peer_eqb (silent_readies (key_of keys) tm holders msgs1) ready1
   | Duo keys _ m holders t a _ ready1 _ impl_a impl_c =>
       obs_eqb (duo_a (key_of keys) m holders t a ready1) impl_a && agree_obs c impl_c
+  | Undriven _ => false
   end.
 
 Definition judge (c : case) : bool :=
@@ -99,6 +106,7 @@ Definition judge (c : case) : bool :=
       end
   | Duo keys tm m holders t a c ready1 msgs2 impl_a impl_c =>
       duo_ok (mkEnv tm holders t c [] [] msgs2) a impl_a impl_c
+  | Undriven _ => true
   end.
 
 Definition outcome_tag (o : outcome) : N :=
@@ -145,6 +153,7 @@ Definition tag (c : case) : N :=
               | Some sub => if memb c sub then 1 else 2
               | None => 0
               end)%N
+  | Undriven _ => 8191
   end.
 
 Definition check_all := check_cases agree judge tag.
